@@ -43,3 +43,7 @@ claim('C18', 'other',
       'EXP interpretation of Fq2::sqrt (all four cases of Alg. 9 with exact exponents and the -1 tests), legendre via the norm, known-bits proof that Fq::sgn0 reads bit 0 of the canonical representation, Fq2::sgn0 selection, negate_if polarity, lexicographic Ord for Fq2 with c1 most significant, 2-adic constants. Correctness of Alg. 9 and of the derive-generated Fq/Fr sqrt, legendre, Ord is cited/external, not decided.',
       'Trusted: ff derive; Alg. 9 (eprint 2012/685).',
       'abstract interpretation (exponent domain, known-bits), structural rules', 'DESIGN.md 4.4, 5 C18')
+claim('C19', 'other',
+      'Abstract interpretation of the four point deserializers over (bit 7 of the first byte) x (caller flag) with everything else unknown: read_exact of the compressed size from the caller\'s reader; flag test depends exactly on bit 7; mismatch -> error before further reads; match -> exact remaining read, copy of exactly the stream bytes into a same-size encoding, CHECKED decoder; all errors reach Err; no panic edge. Serializers write exactly the encoder output with write_all under the right polarity. Fr/Fq12: 1/12 range-checked big-endian coefficients, no unwrap, writer/reader slot order agree. Value round trip is not decided.',
+      'Trusted: std::io contracts; checked decoders (C04).',
+      'known-bits abstract interpretation with exhaustive flag enumeration; def-use rules', 'DESIGN.md 4.2, 4.11, 5 C19')
